@@ -54,7 +54,7 @@ CLAIMS = {
          "the input is never interpreted as a format; for the JSight schema scanner every panic raised by a state function, a closure or Next is "
          "proved to be an error value, and if it is a positioned diagnostic its index lies inside the text (thin contract over all 62 state "
          "functions). Not decided: which byte a scanner error points at, positions produced by the loader/compiler/checker (taken from lexemes), "
-         "errs.f placeholder counts, readability of messages.",
+         "readability of messages. errs.f is proved to answer with the runtime-failure code exactly when the code has no format or the number of arguments differs from "the number of placeholders (never because of the content of an argument), and every call <constant code>.F(args...) in the module is const-evaluated to pass as many arguments as the format has placeholders (static obligation per site; five sites with a variable code are assumptions).",
          "5 C16", "weakest-precondition VCs over go/ssa + SMT; constant evaluation of the format table"),
  "C04": ("Numeric rule values are proved never to wrap: Bytes.ParseUint/ParseInt return the exact decimal value or an error (no-wrap "
          "obligations on u*10+d), so NewMinLength/NewMaxLength/NewMinItems/NewMaxItems/NewPrecision hold exactly the written number "
@@ -70,7 +70,9 @@ CLAIMS = {
          "iterator (NextLexeme: every panic of the scanner is an error value and is returned) - are panic-free on every input (one recorded finding: exponent magnitude above "
          "2^40), plus the comparator, ParseUint/ParseInt, text positions, error rendering, the string decoder, the ordered maps, the constraint constructors and validators' "
          "arithmetic, the pooled-buffer marshalers. Not decided: Scanner.Length() of the schema scanner (its bound needs the push-down discipline of the event stack), the loader, "
-         "compiler, checker and OpenAPI conversion (not under contract), explicit error-valued panics inside the two scanners, recursion depth (stack overflow), memory exhaustion.",
+         "compiler, checker and OpenAPI conversion (not under contract), explicit error-valued panics inside the two scanners, memory exhaustion. Termination of recursion is proved for the key-shortcut type resolution "
+         "(checker.resolveRootType: measure = registered types minus names on the chain; a type that lists itself used to overflow the stack) and for the checker list construction (appendTypeValidators/buildList with getType: measure = registered types minus expanded names) - the other recursion guards of the checker and loader are not under contract, and stack depth as such is not modelled. "
+         "Length() of the enum rule scanner is proved to stay within the text and to read in range (it panicked on a rule ending inside an annotation).",
          "5 C02", "weakest-precondition VCs over go/ssa + SMT (safety obligations on every operation, decreases clauses)"),
  "C12": ("Partial. For the JSON document scanner every one of the 39 state functions is proved to implement exactly its row of a reference pushdown transducer "
          "written from the RFC 8259 grammar (tools/jsondoc_rows.py: for every byte class and, after a complete value, every shape of the event stack, the next state, "
@@ -80,8 +82,8 @@ CLAIMS = {
          "of s.step, every panic is an error value so nextLexeme lets none escape, at most three queued events, the unfinishedLiteral flag that decides acceptance at end of "
          "input agrees with the state (truncated numbers / keywords rejected), Next's reading loop terminates. Not machine-checked: that the transducer of the rows is the "
          "RFC 8259 grammar (it is written to be read against it), the composition of the rows over a whole text (language equality as a theorem about Check()), tree equality "
-         "with an independent decoder; of Len() it is proved that it never exceeds the text, that every lexeme handed out ends inside the text, and that the result does not end in a blank "
-         "(not that it is the end of the value).",
+         "with an independent decoder; of Len() it is proved that it never exceeds the text, that every lexeme handed out ends inside the text, that the result does not end in a blank, "
+         "and - with trailing text allowed - that only blanks lie between the result and the first trailing character (not, for a document without trailing text, that it is the end of the value).",
          "5 C12", "weakest-precondition VCs over go/ssa + SMT; function-type contract instantiated per state function"),
  "C10": ("Partial (the aliasing half). The eight functions that take a buffer from a process-wide sync.Pool (exampleBuilder.buildExampleForObjectNode/"
          "ArrayNode and Build/buildObjectKey/buildExampleForMixedValueNode, the four legacy buildExample* functions, Enum/ArrayItems/ObjectProperties/"
@@ -114,7 +116,7 @@ CLAIMS = {
          "`/* */` annotations between tokens; next state, queued events, flags, saved state on annotation entry/exit, exact set of refused bytes); all 35 plus the queue/stack "
          "operations, Next and processTail are proved free of run-time panics and to keep the representation invariant. Not decided: the value-ending composite of "
          "stateEndValue/state0/state1/stateDot0 as a whole (its parts are), duplicate detection inside the scanner (validateValue is specified only by the invariant), the "
-         "length-computing mode, the composition of rows over a whole text, Values() order, and that `enum: @name` gives the same verdict and example as the inline list (loader).",
+         "events of the length-computing mode (Length() itself is proved in range and blank-trimmed), the composition of rows over a whole text, Values() order, and that `enum: @name` gives the same verdict and example as the inline list (loader).",
          "5 C17", "weakest-precondition VCs over go/ssa + SMT; definitional spec functions (numparses, normfrac, unq_str) tied to the verified parsers"),
  "C09": ("Partial. Proved: GuessSchemaType and json.GuessData classify a text by a function of the text alone (exact text-level specification, fixed test order, no map "
          "iteration); no format in errs.errorFormat uses a verb that prints structures or addresses (const-evaluated table obligation). Closed-list obligation: every "
